@@ -327,6 +327,10 @@ def check(chk, fx):
     # ---------------------------------------------------------------- TRACE
     chk.rule("TRACE", "trace labels whose printed operand must be the action's operand", 4)
     _trace(chk, fx)
+    # the characters named in the trace ("Current char", "Unexpected character") come out of a 256-entry name table:
+    # a byte must reach it as an unsigned index or the trace names something that was never read
+    from .. import lexrules
+    lexrules.charidx(chk, fx)
 
 
 def _is_diag(q):
